@@ -18,7 +18,7 @@ MODULES = {
     "C08": ["C08", "GenNumGammastd", "GenNumGammastdYxt", "SafeBrentq", "SafeGammafit", "SafeGammastd"],
     "C09": ["C09", "GenNumGammastdGrp"],
     "C10": ["C10", "GenKMk", "GenNumMkScore", "GenNumMkVar", "GenNumMkZ", "GenNumMkP", "GenNumMkSens", "GenNumMkTrend"],
-    "C11": ["C11"], "C12": ["C12"], "C13": ["C13"],
+    "C11": ["C11"], "C12": ["C12"], "C13": ["C13", "Types"],
     "C14": ["C14", "SafeRollingSum", "SafeLroo", "SafeMeanGrp", "SafeDoMean", "SafeAutocorrSums", "SafeMkScoreCounts",
             "SafeWs2d", "SafeTinterpolate", "SafeWs2doptv"],
     "C15": ["C15", "GenKAC", "GenNumACFloat"],
@@ -41,9 +41,17 @@ def theorems(path: Path):
         if m and ns and ns[-1].split(".")[-1] == m.group(1).split(".")[-1]:
             ns.pop()
             continue
-        m = re.match(r"\s*(?:@\[[^\]]*\]\s*)?(?:private\s+|protected\s+)?theorem\s+([^\s:({\[]+)", ln)
+        m = re.match(r"\s*(?:@\[[^\]]*\]\s*)?(?:private\s+|protected\s+)?theorem\s+([^\s:({\[$]+)", ln)
         if m:
             out.append(".".join(ns + [m.group(1)]))
+        # Props/Types.lean states one family of theorems per kernel through two command macros
+        m = re.match(r"\s*gufunc_family\s+(\S+)\s+documented", ln)
+        if m:
+            out += [".".join(ns + [f"{p}_{m.group(1)}"]) for p in ("select_agrees_numpy", "loops_reachable", "stores_safe", "outputs_documented",
+                                                                 "accumulators_wide", "no_narrow_arith", "casts_safe")]
+        m = re.match(r"\s*njit_family\s+(\S+)\s*$", ln)
+        if m:
+            out += [".".join(ns + [f"{p}_{m.group(1)}"]) for p in ("stores_safe", "outputs_documented", "accumulators_wide", "no_narrow_arith", "casts_safe")]
     return out
 
 
